@@ -403,8 +403,10 @@ def main(argv=None):
     from timeslot import Timeslot
     ck.coverage["timeslot_source"] = getattr(sys.modules["timeslot.timeslot"], "__file__", "?")
 
-    ck.prove(extra_targets=EXTRA_TARGETS, gen_kernels=GEN_KERNELS)
+    ck.prove(extra_targets=EXTRA_TARGETS + ["Props/C09own.v"], gen_kernels=GEN_KERNELS)
     have_driver = ck.driver()
+    from . import theap            # "inputs not modified": heap-level model (Props/C09own.v), tie A with aliasing
+    theap.heap_check(ck, ["filter_period_intersect", "period_union"], have_driver=theap.prepare(ck))
 
     labels = common.Labels()
     empty = labels.label({})
@@ -518,9 +520,9 @@ def main(argv=None):
         "wider, no two events of a list overlap for a positive time (complete/no-dup/total duration); timestamps "
         "millisecond-aligned (Event's setter guarantees it); the oracle checks the wide domain",
         "union theorems: non-negative durations, millisecond-aligned timestamps; otherwise arbitrary",
-        "'inputs are not modified' (filter_period_intersect) is decided by the before/after oracle (identity of list "
-        "elements, deep snapshot of every input event), not by a theorem: partial",
-        "deepcopy modelled as identity on values; sorted()/list.sort as a stable insertion sort",
+        "'inputs are not modified' (filter_period_intersect): theorem over the heap-level model (Props/C09own.v: frame, "
+        "freshness, refinement for every aliasing; period_union: refinement + exactly which cells change), tied by "
+        "harness/theap.py; in the functional model deepcopy is the identity on values, sorted()/list.sort a stable insertion sort",
     ]
     return ck.finish(RULE)
 
